@@ -87,7 +87,7 @@ def generate(ctx, rng):
             n += 1
             yield ("region", n), _tok_case(rng, pos="first", size=2, region=region)
     yield ("badpw", 0), {**_tok_case(rng, pos="first", size=1), "wrong_password": True}
-    for j in range(1200 if quick else 20000):
+    for j in range(1200 if quick else 60000):
         c = _tok_case(rng, pos=rng.choice(["absent", "first", "middle", "last", "only"]), size=rng.randint(1, 9))
         if rng.random() < 0.3:
             c["stage_faults"] = {str(rng.randrange(3)): [rng.choice(FAULTS + [None]) for _ in range(rng.randint(1, 3))]}
